@@ -79,7 +79,17 @@ func renderStmts(ss []interface{}, ind string) string {
 		case "while":
 			fmt.Fprintf(&b, "%sWHILE %s DO\n%s%sEND WHILE;\n", ind, ex("c"), renderStmts(s["body"].([]interface{}), ind+"  "), ind)
 		case "curdecl":
-			fmt.Fprintf(&b, "%sDECLARE %s CURSOR FOR SELECT %d;\n", ind, s["c"], int(s["v"].(float64)))
+			var sels []string
+			for _, v := range s["vs"].([]interface{}) {
+				sels = append(sels, fmt.Sprintf("SELECT %d", int(v.(float64))))
+			}
+			fmt.Fprintf(&b, "%sDECLARE %s CURSOR FOR %s;\n", ind, s["c"], strings.Join(sels, " UNION ALL "))
+		case "whilein":
+			kw := ""
+			if s["decl"].(bool) {
+				kw = "VAR "
+			}
+			fmt.Fprintf(&b, "%sOPEN %s;\n%sWHILE %s%s IN %s DO\n%s%sEND WHILE;\n%sCLOSE %s;\n", ind, s["c"], ind, kw, s["x"], s["c"], renderStmts(s["body"].([]interface{}), ind+"  "), ind, ind, s["c"])
 		case "curuse":
 			fmt.Fprintf(&b, "%sOPEN %s;\n%sFETCH %s INTO %s;\n%sCLOSE %s;\n", ind, s["c"], ind, s["c"], s["x"], ind, s["c"])
 		case "curdispose":
@@ -89,7 +99,11 @@ func renderStmts(ss []interface{}, ind string) string {
 		case "tabdispose":
 			fmt.Fprintf(&b, "%sDISPOSE VIEW %s;\n", ind, s["t"])
 		case "func":
-			fmt.Fprintf(&b, "%sDECLARE %s FUNCTION (%s) AS BEGIN\n%s%sEND;\n", ind, s["f"], s["p"], renderStmts(s["body"].([]interface{}), ind+"  "), ind)
+			params := s["p"].(string)
+			if q, _ := s["q"].(string); q != "" {
+				params += ", " + q + " DEFAULT " + renderExpr(s["d"].(map[string]interface{}))
+			}
+			fmt.Fprintf(&b, "%sDECLARE %s FUNCTION (%s) AS BEGIN\n%s%sEND;\n", ind, s["f"], params, renderStmts(s["body"].([]interface{}), ind+"  "), ind)
 		default:
 			core.Fail("unknown statement %v", s)
 		}
